@@ -130,3 +130,8 @@ def run(db, ctx):
     from . import C01
     common.shared_rule(db, ctx, C01.r13, 'R3.6', 'every score_rows_into wrapper the scanner can dispatch to resizes the output buffer on every path '
                        '(to (rows.len(), L + 1 - M), or to (0, 0) when there is nothing to score) — shared with R1.3', ['R1.3'])
+    # a block of the 8-bit pre-filter is skipped when its maximum is below the discrete threshold: that maximum must be an upper bound of
+    # every cell of the block (all rows, all columns), or qualifying positions are dropped without being rescored
+    from . import C07
+    common.shared_rule(db, ctx, C07.block_maximum, 'R3.7', 'the block maximum that gates the 8-bit pre-filter covers every row and every column of the block '
+                       '(AVX2 max kernel: identity, row range, lane coverage, final reduction; generic: argmax scan over all cells) — shared with R7.1 / R7.4', ['R7.1', 'R7.4'])
